@@ -894,3 +894,78 @@ Proof. vm_compute. reflexivity. Qed.
 Example nan_breaks_antisymmetry :
   compare tz0 (CNum (NFlt S754_nan)) (CNum (NInt 0)) = Gt /\ compare tz0 (CNum (NInt 0)) (CNum (NFlt S754_nan)) = Gt.
 Proof. vm_compute. split; reflexivity. Qed.
+
+(* ---- min / max return the FIRST least / greatest argument (the code's strict test) ----------- *)
+Section FirstExtremum.
+  Variable tz : Z -> Z.
+  Notation cmp := (compare tz).
+  Let G := compare_glaws tz.
+
+  Lemma max_loop_first vs : forall pre r post, ok r -> Forall ok pre -> Forall ok post -> Forall ok vs ->
+    Forall (fun v => cmp v r = Lt) pre -> Forall (fun v => cmp v r <> Gt) post ->
+    let m := max_loop tz r vs in
+    exists l1 l2, pre ++ r :: post ++ vs = l1 ++ m :: l2 /\
+                  Forall (fun v => cmp v m = Lt) l1 /\ Forall (fun v => cmp v m <> Gt) l2.
+  Proof.
+    induction vs as [|v t IH]; intros pre r post Or Opre Opost Ovs Hpre Hpost; cbn.
+    - exists pre, post. rewrite app_nil_r. auto.
+    - inversion Ovs as [|? ? Ov Ot]; subst. destruct (cmp v r) eqn:E.
+      + destruct (IH pre r (post ++ [v]) Or Opre) as [l1 [l2 [Eq [H1 H2]]]]; auto.
+        * apply Forall_app; split; auto.
+        * apply Forall_app; split; auto. constructor; auto. congruence.
+        * exists l1, l2. rewrite <- app_assoc in Eq. cbn in Eq. auto.
+      + destruct (IH pre r (post ++ [v]) Or Opre) as [l1 [l2 [Eq [H1 H2]]]]; auto.
+        * apply Forall_app; split; auto.
+        * apply Forall_app; split; auto. constructor; auto. congruence.
+        * exists l1, l2. rewrite <- app_assoc in Eq. cbn in Eq. auto.
+      + assert (Rv : cmp r v = Lt) by (rewrite (g_anti ok cmp G v r), E; auto).
+        destruct (IH (pre ++ r :: post) v [] Ov) as [l1 [l2 [Eq [H1 H2]]]]; auto.
+        * apply Forall_app; split; auto.
+        * apply Forall_app; split.
+          -- rewrite Forall_forall in *. intros x Hx. apply (g_lt_le_trans ok cmp G x r v); auto. congruence.
+          -- constructor; auto. rewrite Forall_forall in *. intros x Hx. apply (g_le_lt_trans ok cmp G x r v); auto.
+        * exists l1, l2. rewrite <- app_assoc in Eq. cbn in Eq. auto.
+  Qed.
+
+  Lemma math_max_first vs : vs <> [] -> Forall ok vs ->
+    exists l1 l2, vs = l1 ++ math_max tz vs :: l2 /\
+                  Forall (fun v => cmp v (math_max tz vs) = Lt) l1 /\ Forall (fun v => cmp v (math_max tz vs) <> Gt) l2.
+  Proof.
+    destruct vs as [|r t]; [congruence|]. intros _ H. inversion H; subst. cbn [math_max].
+    apply (max_loop_first t [] r []); auto.
+  Qed.
+
+  Lemma min_loop_first vs : forall pre r post, ok r -> Forall ok pre -> Forall ok post -> Forall ok vs ->
+    Forall (fun v => cmp r v = Lt) pre -> Forall (fun v => cmp r v <> Gt) post ->
+    let m := min_loop tz r vs in
+    exists l1 l2, pre ++ r :: post ++ vs = l1 ++ m :: l2 /\
+                  Forall (fun v => cmp m v = Lt) l1 /\ Forall (fun v => cmp m v <> Gt) l2.
+  Proof.
+    induction vs as [|v t IH]; intros pre r post Or Opre Opost Ovs Hpre Hpost; cbn.
+    - exists pre, post. rewrite app_nil_r. auto.
+    - inversion Ovs as [|? ? Ov Ot]; subst.
+      assert (Keep : cmp v r <> Lt ->
+        exists l1 l2, pre ++ r :: post ++ v :: t = l1 ++ min_loop tz r t :: l2 /\
+                      Forall (fun x => cmp (min_loop tz r t) x = Lt) l1 /\ Forall (fun x => cmp (min_loop tz r t) x <> Gt) l2).
+      { intros N. destruct (IH pre r (post ++ [v]) Or Opre) as [l1 [l2 [Eq [H1 H2]]]]; auto.
+        - apply Forall_app; split; auto.
+        - apply Forall_app; split; auto. constructor; auto. rewrite (g_anti ok cmp G v r) by auto. destruct (cmp v r); cbn; congruence.
+        - exists l1, l2. rewrite <- app_assoc in Eq. cbn in Eq. auto. }
+      destruct (cmp v r) eqn:E; try (apply Keep; congruence).
+      assert (Rv : cmp r v = Gt) by (rewrite (g_anti ok cmp G v r), E; auto).
+      destruct (IH (pre ++ r :: post) v [] Ov) as [l1 [l2 [Eq [H1 H2]]]]; auto.
+      * apply Forall_app; split; auto.
+      * apply Forall_app; split.
+        -- rewrite Forall_forall in *. intros x Hx. apply (g_lt_le_trans ok cmp G v r x); auto. rewrite (Hpre x Hx). discriminate.
+        -- constructor; auto. rewrite Forall_forall in *. intros x Hx. apply (g_lt_le_trans ok cmp G v r x); auto.
+      * exists l1, l2. rewrite <- app_assoc in Eq. cbn in Eq. auto.
+  Qed.
+
+  Lemma math_min_first vs : vs <> [] -> Forall ok vs ->
+    exists l1 l2, vs = l1 ++ math_min tz vs :: l2 /\
+                  Forall (fun v => cmp (math_min tz vs) v = Lt) l1 /\ Forall (fun v => cmp (math_min tz vs) v <> Gt) l2.
+  Proof.
+    destruct vs as [|r t]; [congruence|]. intros _ H. inversion H; subst. cbn [math_min].
+    apply (min_loop_first t [] r []); auto.
+  Qed.
+End FirstExtremum.
